@@ -100,19 +100,25 @@ pub fn stale_slot_script(rng: &mut Rng) -> std::collections::VecDeque<String> {
 /// rehash takes the E's home — X's first probe group is now free — and the slot picked BEFORE the rehash is
 /// behind a group with EMPTY bytes. X and the E's are then looked up.
 pub fn displaced_group_script(rng: &mut Rng, unlawful: bool) -> std::collections::VecDeque<String> {
+    displaced_group_script_for(rng, unlawful, false)
+}
+
+/// `table`: the same construction through `HashTable::insert_unique` / `remove` / `find`.
+pub fn displaced_group_script_for(rng: &mut Rng, unlawful: bool, table: bool) -> std::collections::VecDeque<String> {
     let w = hashbrown::verif::GROUP_WIDTH;
     let n = 4 * w;
     let mask = n - 1;
     let cap = hashbrown::verif::bucket_mask_to_capacity(mask);
     let r = rng.below(4) as usize * w;
     let key = |p: usize, j: usize| ((p + r) & mask) + n * j;
+    let (ins, eins, look) = if table { ("TINS", "TINS", "find") } else { ("INS", "EINS", "get") };
     let mut out = std::collections::VecDeque::new();
     out.push_back(format!("a with_capacity {}", cap));
     for j in 0..w {
-        out.push_back(format!("INS {}", key(0, j)));
+        out.push_back(format!("{} {}", ins, key(0, j)));
     }
     for j in 0..w {
-        out.push_back(format!("INS {}", key(0, w + j)));
+        out.push_back(format!("{} {}", ins, key(0, w + j)));
     }
     for j in 0..w {
         out.push_back(format!("a remove {}", key(0, j)));
@@ -120,7 +126,7 @@ pub fn displaced_group_script(rng: &mut Rng, unlawful: bool) -> std::collections
     let spare = cap - 2 * w;
     let fill: Vec<usize> = (0..spare).map(|j| key(2 * w + w / 2, j)).collect();
     for k in &fill {
-        out.push_back(format!("INS {}", k));
+        out.push_back(format!("{} {}", ins, k));
     }
     for k in &fill {
         out.push_back(format!("a remove {}", k));
@@ -131,13 +137,13 @@ pub fn displaced_group_script(rng: &mut Rng, unlawful: bool) -> std::collections
         // possibly into the very bucket the insertion picked before reserving (C05)
         out.push_back(format!("env hash=mix:{}", rng.below(1 << 30)));
     }
-    out.push_back(format!("EINS {}", x));
-    out.push_back(format!("a get {}", x));
+    out.push_back(format!("{} {}", eins, x));
+    out.push_back(format!("a {} {}", look, x));
     for j in 0..w {
-        out.push_back(format!("a get {}", key(0, w + j)));
+        out.push_back(format!("a {} {}", look, key(0, w + j)));
     }
-    out.push_back(format!("EINS {}", key(w, 4)));
-    out.push_back(format!("a get {}", key(w, 4)));
+    out.push_back(format!("{} {}", eins, key(w, 4)));
+    out.push_back(format!("a {} {}", look, key(w, 4)));
     out
 }
 
@@ -203,6 +209,93 @@ pub fn last_displaced_script(rng: &mut Rng) -> std::collections::VecDeque<String
     out.push_back(format!("TINS {}", key(w + 1)));
     out.push_back(format!("a find {}", key(w)));
     out.push_back(format!("a find {}", key(w + 1)));
+    out
+}
+
+/// Scripted construction (needs the `sequential` plan) for maps: a table filled to exactly its capacity with
+/// keys at consecutive positions and then emptied by removals in order — every erase leaves a tombstone, so the
+/// table ends allocated with `items == 0` AND `growth_left == 0` (`capacity() == 0`). Then one of the operations
+/// that hand an emptied table back (drain, clear, shrink, reserve, retain, extract_if, clone, insert) and a refill.
+pub fn tombstone_full_script(rng: &mut Rng) -> std::collections::VecDeque<String> {
+    let w = hashbrown::verif::GROUP_WIDTH;
+    let n = *rng.pick(&[2 * w, 4 * w, 4 * w, 8 * w]);
+    let cap = hashbrown::verif::bucket_mask_to_capacity(n - 1);
+    let mut out = std::collections::VecDeque::new();
+    out.push_back(format!("a with_capacity {}", cap));
+    for k in 0..cap {
+        out.push_back(format!("INS {}", k));
+    }
+    match rng.below(3) {
+        0 => {
+            for k in 0..cap {
+                out.push_back(format!("a remove {}", k));
+            }
+        }
+        1 => {
+            for k in 0..cap - 1 {
+                out.push_back(format!("a remove {}", k));
+            }
+            out.push_back(format!("a remove_entry {}", cap - 1));
+        }
+        _ => {
+            // any order works: the non-EMPTY run around every position stays at least one group long
+            let mut ks: Vec<usize> = (0..cap).collect();
+            for i in (1..ks.len()).rev() {
+                ks.swap(i, rng.below(i as u64 + 1) as usize);
+            }
+            for k in ks {
+                out.push_back(format!("a remove {}", k));
+            }
+        }
+    }
+    for _ in 0..1 + rng.below(2) {
+        out.push_back(
+            match rng.below(10) {
+                0 | 1 | 2 => format!("a drain {} 0", rng.below(3)),
+                3 => "a drain_fold 0".to_string(),
+                4 => "a clear".to_string(),
+                5 => "a shrink_to_fit".to_string(),
+                6 => format!("a reserve {}", rng.below(4)),
+                7 => "a extract_if 4".to_string(),
+                8 => format!("a get {}", rng.below(cap as u64)),
+                _ => format!("INS {}", n + rng.below(8) as usize),
+            },
+        );
+    }
+    for _ in 0..3 {
+        let k = rng.below(2 * n as u64);
+        out.push_back(format!("INS {}", k));
+        out.push_back(format!("a get {}", k));
+    }
+    out
+}
+
+/// Scripted construction (needs the `sequential` plan) for maps: `w + 1` keys with the same home (the last one is
+/// displaced into the next probe group), all but the displaced one removed (tombstones in front of it), then the
+/// LAST remaining element is updated in place through `replace_entry_with` / `and_replace_entry_with` (the pair
+/// is taken out of its bucket and put back), looked up, and a fresh key is inserted and looked up.
+pub fn last_displaced_map_script(rng: &mut Rng) -> std::collections::VecDeque<String> {
+    let w = hashbrown::verif::GROUP_WIDTH;
+    let n = 4 * w;
+    let mask = n - 1;
+    let cap = hashbrown::verif::bucket_mask_to_capacity(mask);
+    let r = rng.below(4) as usize * w;
+    let key = |j: usize| (r & mask) + n * j;
+    let extra = rng.below(w as u64 / 2) as usize;
+    let mut out = std::collections::VecDeque::new();
+    out.push_back(format!("a with_capacity {}", cap));
+    for j in 0..=w + extra {
+        out.push_back(format!("INS {}", key(j)));
+    }
+    for j in 0..w + extra {
+        out.push_back(format!("a remove {}", key(j)));
+    }
+    let last = key(w + extra);
+    out.push_back(format!("REPL {}", last));
+    out.push_back(format!("a get {}", last));
+    out.push_back(format!("INS {}", key(w + extra + 1)));
+    out.push_back(format!("a get {}", last));
+    out.push_back(format!("a get {}", key(w + extra + 1)));
     out
 }
 
@@ -369,6 +462,17 @@ impl Gen {
             if let Some(k) = op.strip_prefix("TINS ") {
                 let id = self.id();
                 return format!("a insert_unique {} {} {}", k, id, 100 + self.rng.below(50));
+            }
+            if let Some(k) = op.strip_prefix("REPL ") {
+                // in-place update through replace_entry_with (keep) of one of the entry families
+                let kid = self.id();
+                let nv = 500 + self.rng.below(100);
+                return match self.rng.below(4) {
+                    0 => format!("a entry {} {} replace_entry_with keep {}", k, kid, nv),
+                    1 => format!("a entry {} {} and_replace_entry_with keep {}", k, kid, nv),
+                    2 => format!("a raw_from_key {} replace_entry_with keep {}", k, nv),
+                    _ => format!("a raw_from_hash {} replace_entry_with keep {}", k, nv),
+                };
             }
             if let Some(k) = op.strip_prefix("TREINS ") {
                 // find_entry(k) -> OccupiedEntry::remove -> VacantEntry::insert of a fresh element with key k
